@@ -12,7 +12,7 @@ type runFn func(p *Plan, tape []uint32) (viol *Violation, usedTape []uint32, tur
 
 func inProcessRunner(t *testing.T, pd *propDef) runFn {
 	return func(p *Plan, tape []uint32) (*Violation, []uint32, []int) {
-		res := RunPlan(t, p, replayTape(tape), pd.chk, false)
+		res := runProp(t, pd, p, replayTape(tape), false)
 		return res.Viol, res.Tape, res.TurnLog
 	}
 }
